@@ -537,9 +537,10 @@ theorem register_replaces_external (pfx : Option Text) (regs : List StaticReg) (
     rw [this]
     simp [hw.symm]
 
-/-- PARTIAL — "re-adding the same name replaces" holds for external names only.  For a LOCAL name the URL column is
-`None`, the comparison `name in names` never succeeds and both registrations stay (finding F-C16c): the asset of
-the superseded spec still gets a URL — of the route that now serves the new directory. -/
+/-- As built; outside C16's statement (observation O-C16c).  "Re-adding the same name replaces" holds for external
+names only: for a LOCAL name the URL column is `None`, the comparison `name in names` never succeeds and both
+registrations stay — the asset of the superseded spec still gets a URL, of the route that now serves the new
+directory. -/
 theorem register_local_name_accumulates :
     let adds : List (Text × Text) := [("static".toList, "pkg:old".toList), ("static".toList, "pkg:new".toList)]
     (registerAll none adds).length = 2 ∧ (routesOf none adds).length = 1 ∧
@@ -657,16 +658,16 @@ theorem static_url_designates_spec_file (fs : Fs) (v : View) (hw : WfView v) (hr
   refine ⟨rfl, ?_⟩
   rw [Pyr.Static.below_eq _ _ (Pyr.Trav.splitOn_ne_nil _ _), Pyr.Static.joinWith_splitOn]
 
-/-- PARTIAL — the way back assumes that the request reaches the view mounted at `lit`.  When an EARLIER static view
-is mounted at a prefix of `lit` its route matches first (finding F-C16d): -/
+/-- As built; outside C16's statement (observation O-C16d).  The way back assumes that the request reaches the view
+mounted at `lit`; when an EARLIER static view is mounted at a prefix of `lit` its route matches first: -/
 theorem earlier_prefix_route_captures :
     let adds : List (Text × Text) := [("a".toList, "/srv/one".toList), ("a/b".toList, "/srv/two".toList)]
     (generate ⟨"http".toList, none, "h".toList, "80".toList, []⟩ (routesOf none adds) (registerAll none adds) []
       (fun _ => none) "/srv/two/x.css".toList { appUrl := some [] } false).toOption = some "/a/b/x.css".toList ∧
     Pyr.Static.routeRemainder "/a/".toList "/a/b/x.css".toList = some "b/x.css".toList := by decide
 
-/-- the excluded point of `cache_buster_documented_place` (finding F-C16e): a string `_query` is outside what a
-query-string buster can extend -/
+/-- As built; outside C16's statement (observation O-C16e).  The excluded point of `cache_buster_documented_place`: a
+string `_query` is outside what a query-string buster can extend -/
 theorem string_query_with_query_buster_outside :
     (match applyBuster (.query ['x'] ['t']) "f.css".toList (.str "a=1".toList) false with
      | .error .outside => true
